@@ -1,6 +1,6 @@
 """Per-property checks.  Each builds jobs (worlds + programs + exploration), runs the generic
 pipeline and writes evidence.  All verdicts come from TLC (spec/*.tla)."""
-import json, os, sys, time, random, itertools, copy
+import json, os, sys, time, random, itertools, copy, subprocess
 from kv import *
 from jobs import *
 from pipeline import trace_check
@@ -116,6 +116,8 @@ def conc_families(front_name):
             ([E("k2")], [E("k2"), G("k2")]),
             ([U(k, "promote")], [P(k), G(k)]),
             ([U(k, "replace")], [G(k), E(k)]),
+            # the value is staged on another filesystem than the cache (rename fails with EXDEV)
+            ([S(k, srcdir="@XDEV@", chunks=2)], [G(k), G(k)]),
         ]
     return base
 
@@ -252,7 +254,7 @@ def check_C05(work):
                                      adv=[{"at": at, "path": vpath}]))
     mons = ["NoErr", "DirValid"]
     st = trace_check(work, out, jobs, mons, tag="c05", conform=True)
-    design = []
+    design = design_runs(work, out, Q(["MCtouchput", "MCadv"], ["MCtouchput", "MCadv", "MCplain2", "MCclean"]))
     cov = coverage_mc(st, design,
                       "capacity-1 caches (every write maintains), missing directories, adversarial deletions of published files at each scheduler step; "
                       "every API return judged by NoErr", dict(jobs=len(jobs), monitors=mons))
@@ -808,6 +810,201 @@ def check_C19(work):
                         "reading; judge and checkers consume the files), mode of every published file", umasks=(0o000, 0o022, 0o077))
 
 
+# ---------------------------------------------------------------------------
+# pure functions: cases -> kv-actor --pure -> TLC
+
+def run_pure(work, cases, tag):
+    """Runs kv-actor --pure over the cases (sharded over processes); returns the list of output files."""
+    n = max(1, min(12, len(cases) // 2000 + 1))
+    files = []
+    procs = []
+    for w in range(n):
+        cf = work.path("%s-cases-%d.ndjson" % (tag, w))
+        of = work.path("%s-out-%d.ndjson" % (tag, w))
+        with open(cf, "w") as f:
+            for c in cases[w::n]:
+                f.write(json.dumps(c) + "\n")
+        procs.append((subprocess.Popen([ACTOR, "--pure", cf, of]), of))
+    for p, of in procs:
+        if p.wait() != 0:
+            raise ToolError("kv-actor --pure failed")
+        files.append(of)
+    return files
+
+
+def check_C08(work):
+    t0 = time.time()
+    out = Outcome("C08")
+    rng = random.Random(seed())
+    cases = []
+    nmax = Q(4, 6)
+    cid = 0
+    for n in range(0, nmax + 1):
+        for combo in itertools.product(itertools.product(range(4), (0, 1)), repeat=n):
+            cid += 1
+            cases.append({"fn": "plan", "id": cid, "ents": [list(x) for x in combo], "caps": list(range(0, n + 2)) + ["max"]})
+    exhaustive_n = nmax
+    # sampled n = nmax+1 .. 7 over the same rank domain
+    for n in range(nmax + 1, 8):
+        for _ in range(Q(1500, 20000)):
+            cid += 1
+            cases.append({"fn": "plan", "id": cid, "ents": [[rng.randint(0, 3), rng.randint(0, 1)] for _ in range(n)],
+                          "caps": list(range(0, n + 2))})
+    # large inputs, full-width ranks, extreme capacities
+    big = []
+    for _ in range(Q(40, 200)):
+        n = rng.choice([10, 50, 100, 300] + ([1000, 2000] if TIER == "thorough" else []))
+        style = rng.choice(["wide", "ties", "few"])
+        if style == "wide":
+            ranks = [rng.getrandbits(64) for _ in range(n)]
+        elif style == "ties":
+            ranks = [rng.choice([0, 1, U64MAX, U64MAX - 1, 1 << 63]) for _ in range(n)]
+        else:
+            ranks = [rng.randint(0, 5) for _ in range(n)]
+        cid += 1
+        big.append({"fn": "plan", "id": cid, "ents": [[str(r), rng.randint(0, 1)] for r in ranks],
+                    "caps": [0, max(0, n - 1), n, "max", rng.randint(0, n)]})
+    files = run_pure(work, cases + big, "c08")
+    # order-preserving compression of full-width ranks (exact: the planner is generic in Rank: Ord and can only compare)
+    largest = 0
+    for f in files:
+        lines = []
+        for line in open(f):
+            r = json.loads(line)
+            vals = sorted(set(int(e[0]) for e in r["ents"]))
+            idx = {v: i for i, v in enumerate(vals)}
+            r["ents"] = [[idx[int(e[0])], 1 if e[1] in (1, True) else 0] for e in r["ents"]]
+            largest = max(largest, len(r["ents"]))
+            for o in r["outs"]:
+                if o["cap"] == "max":
+                    o["cap"] = -1
+            lines.append(json.dumps(r))
+        with open(f, "w") as g:
+            g.write("\n".join(lines) + "\n")
+    res = validate_traces(work, "TraceSC", files, {"monitors": []}, tag="c08")
+    judged = 0
+    nviol = 0
+    for r in res:
+        judged += (r.get("mstats") or {}).get("judged", 0)
+        for v in r["verdicts"]:
+            nviol += 1
+            case = next((c for c in cases + big if c["id"] == v["run"]), None)
+            out.report("PlanOK@n=%d" % (len(case["ents"]) if case else -1), dict(property="C08", case=case, failing_caps=v["viol"]))
+    design = design_runs(work, out, Q(["MCsc4", "MCscExact3"], ["MCsc4", "MCsc5", "MCscExact3", "MCscExact"]))
+    cov = dict(states=max(1, sum(d["states"] for d in design) + sum(r["states"] for r in res)),
+               transitions=max(1, sum(d["transitions"] for d in design) + judged),
+               traces_validated_against_impl=len(cases) + len(big),
+               samples=[cases[min(len(cases) - 1, 300)], big[0]],
+               rule="all sequences of <= %d entries over ranks 0..3 x flag x capacities 0..n+1 and usize::MAX (exhaustive), sampled n up to 7, seeded large inputs "
+                    "(n <= %d, full-width u64 ranks incl. extreme ties, capacities 0, n-1, n, usize::MAX) fed to the real second_chance::Update::new; every outcome "
+                    "judged by SecondChance!PlanOK (equal to the classical clock under SOME ordering of ties; exactness of PlanOK itself proved by MCscExact)" % (exhaustive_n, largest),
+               judgements=judged, largest_n_judged=largest, exhaustive=True,
+               design_level=[dict(cfg=d["cfg"], states=d["states"], transitions=d["transitions"], ok=d["ok"], wall_s=round(d["wall"], 1)) for d in design])
+    return finish("C08", out, t0, "model_checking", cov, ["TLC 1.8.0", "ranks are compressed order-preservingly before TLC sees them (the planner can only compare ranks)"])
+
+
+def trigger_scripts(P, rng):
+    """Adversarial draw scripts for period P (Python integers are only used to *generate* inputs)."""
+    Pe = max(1, P)
+    sc = (U64MAX // Pe) + (1 if U64MAX % Pe else 0)
+    n = 3 * Pe + 5
+    out = {}
+    out["max"] = dict(draws=[], draw_default=str(U64MAX))
+    out["ones"] = dict(draws=[], draw_default="1")
+    out["mult"] = dict(draws=[str(min(U64MAX, max(1, ((i % Pe) + 1) * sc))) for i in range(n)], draw_default=str(U64MAX))
+    out["mult+1"] = dict(draws=[str(min(U64MAX, ((i % Pe) + 1) * sc + 1)) for i in range(n)], draw_default=str(U64MAX))
+    out["mult-1"] = dict(draws=[str(max(1, min(U64MAX, ((i % Pe) + 1) * sc - 1))) for i in range(n)], draw_default=str(U64MAX))
+    out["zero"] = dict(draws=["0", "0", str(U64MAX), "0", "1"], draw_default=str(U64MAX - 1))
+    out["rand"] = dict(draws=[str(rng.getrandbits(64) | 1) for _ in range(n)], draw_default=str(U64MAX))
+    return out, n
+
+
+def check_C10(work):
+    t0 = time.time()
+    out = Outcome("C10")
+    rng = random.Random(seed())
+    caps = list(range(0, Q(40, 201))) + Q([60, 61, 99, 100, 101, 150, 199, 200], [])
+    huge = [1 << 31, 1 << 63, (1 << 64) - 2, (1 << 64) - 1]
+    # (a) the trigger alone
+    cases = []
+    cid = 0
+    for k in caps + huge:
+        P = k // 3
+        scripts, n = trigger_scripts(P if P < (1 << 20) else 3, rng)
+        for name, sc in scripts.items():
+            cid += 1
+            c = {"fn": "trigger", "id": cid, "period": str(P), "draws": sc["draws"], "draw_default": sc["draw_default"],
+                 "events": n if P < (1 << 20) else 12, "script": name, "cap": str(k)}
+            cases.append(c)
+    files = run_pure(work, cases, "c10p")
+    byid = {c["id"]: c for c in cases}
+    for f in files:
+        lines = []
+        for line in open(f):
+            r = json.loads(line)
+            c = byid[r["id"]]
+            P = int(c["period"])
+            rec = {"fn": "trigger", "id": r["id"], "panic": r["panic"], "fires": r["fires"]}
+            if P < (1 << 20):
+                rec["small"] = True
+                rec["p"] = P
+                if P <= 1:
+                    rec["expect"] = [1] * len(r["fires"])
+            if c["script"] == "ones":
+                rec["allones"] = True
+            lines.append(json.dumps(rec))
+        with open(f, "w") as g:
+            g.write("\n".join(lines) + "\n")
+    res = validate_traces(work, "TraceTrigger", files, {"monitors": []}, tag="c10p")
+    for r in res:
+        for v in r["verdicts"]:
+            if v.get("viol"):
+                c = byid.get(v["run"], {})
+                out.report("TriggerWindow@period=%s:%s" % (c.get("period"), c.get("script")), dict(property="C10", case=c))
+    # (b) one thread writing to one plain cache
+    jobs = []
+    dcaps = Q([0, 1, 2, 3, 4, 5, 6, 7, 8, 9, 11, 12, 14, 15, 21, 30, 31, 32, 33, 60, 100], list(range(0, 201, 1)))
+    for k in dcaps + huge:
+        P = max(1, k // 3) if k < (1 << 20) else 4
+        scripts, n = trigger_scripts(k // 3 if k < (1 << 20) else 3, rng)
+        for name in Q(("max", "mult", "mult+1", "ones"), ("max", "mult", "mult+1", "mult-1", "ones", "zero", "rand")):
+            sc = scripts[name]
+            nw = 3 * P + 5 if k < (1 << 20) else 8
+            prog = []
+            for i in range(nw):
+                key = "k%d" % (i if i % 4 else i // 4)          # fresh and repeated keys
+                prog.append(op("set" if i % 2 == 0 else "put", key, "v%d" % i))
+            capv = k if k < (1 << 31) else str(k)
+            j = seq_job("C10-%s-%s" % (k, name), "cap=%s:%s" % (k, name), plain("W", capv), prog, draw=sc["draw_default"], draws=sc["draws"],
+                        cfg_extra={"cap": k if k < (1 << 20) else 1000000})
+            j["snap"] = "ret"
+            jobs.append(j)
+    tfiles = run_tracer(work, jobs, tag="c10")
+    res2 = validate_traces(work, "TraceTrigger", tfiles, {"monitors": []}, tag="c10")
+    writes = maint = 0
+    byjob = {j["id"]: j for j in jobs}
+    for r in res2:
+        for v in r["verdicts"]:
+            writes += v.get("ops", 0)
+            maint += v.get("maint", 0)
+            if v.get("viol"):
+                mons = sorted(set(m for _, m in v["viol"]))
+                out.report("%s@%s" % (mons[0], byjob.get(v["job"], {}).get("fam")), dict(property="C10", job=byjob.get(v["job"]), viol=v["viol"]))
+    design = design_runs(work, out, Q(["MCtriggerq"], ["MCtriggerq", "MCtrigger"]))
+    nruns, nev = count_runs(tfiles)
+    cov = dict(states=sum(d["states"] for d in design) + sum(r["states"] for r in res) + sum(r["states"] for r in res2),
+               transitions=sum(d["transitions"] for d in design) + nev,
+               traces_validated_against_impl=len(cases) + nruns,
+               samples=[{k: v for k, v in cases[9].items() if k != "draws"}, dict(job=jobs[3]["id"], cfg=jobs[3]["cfg"], writes=len(jobs[3]["stages"][-1]["parts"][0]["prog"]))],
+               rule="(a) the real PeriodicTrigger (hook: scripted draws) for period = k div 3, k in %d capacities and 4 huge ones, under draw scripts "
+                    "{u64::MAX, j*scale, j*scale+1, j*scale-1, all 1, zero-then-x, seeded}: no window of max(1,period) events without a fire; (b) one thread writing "
+                    "3P+5 times (set/put, fresh and repeated keys) to a plain cache of capacity k: MaintWindow, MaintBeforePublish, CountBound (<= k + P files at "
+                    "every return) judged by TraceTrigger.tla; design level: Trigger.tla, every period and every draw sequence for a %d-bit word" % (len(caps), Q(5, 6)),
+               trigger_cases=len(cases), disk_runs=nruns, writes_judged=writes, maintenances_seen=maint,
+               design_level=[dict(cfg=d["cfg"], states=d["states"], transitions=d["transitions"], ok=d["ok"], wall_s=round(d["wall"], 1)) for d in design])
+    return finish("C10", out, t0, "model_checking", cov, BASE_ASSUME + ["the scripted-draw hook (cfg kismet_verif) replaces only the random source"])
+
+
 def check_C06(work):
     t0 = time.time()
     out = Outcome("C06")
@@ -837,6 +1034,6 @@ def check_C06(work):
     return finish("C06", out, t0, "model_checking", cov, BASE_ASSUME)
 
 
-CHECKS = {"C01": check_C01, "C02": check_C02, "C03": check_C03, "C06": check_C06, "C13": check_C13, "C14": check_C14, "C15": check_C15, "C19": check_C19, "C05": check_C05, "C07": check_C07, "C16": check_C16, "C17": check_C17, "C18": check_C18}
+CHECKS = {"C01": check_C01, "C02": check_C02, "C03": check_C03, "C06": check_C06, "C08": check_C08, "C10": check_C10, "C13": check_C13, "C14": check_C14, "C15": check_C15, "C19": check_C19, "C05": check_C05, "C07": check_C07, "C16": check_C16, "C17": check_C17, "C18": check_C18}
 
 NOT_APPLICABLE = {}
